@@ -51,11 +51,15 @@ pub fn run(ctx: &Ctx, out: &mut CaseOut) {
     let uni = Universe { terms: vec![], max_size: 0 };
     let mut sem = Sem::new(&prog, 12);
     let mut cleans: Vec<bool> = vec![];
+    // "in-limit" for the purpose of refuting an Ambiguous answer: the whole reference derivation stays within types of
+    // at most 6 nodes (SLG truncates from 10 on and counts tuple / array wrappers of field types as well)
+    let mut sem_small = Sem::new(&prog, 6);
     let verdicts: Vec<Tri> = goals
         .iter()
         .map(|g| {
             let v = sem.pred(&[], g);
-            cleans.push(sem.last_clean);
+            let _ = sem_small.pred(&[], g);
+            cleans.push(sem.last_clean && sem_small.last_clean);
             v
         })
         .collect();
